@@ -3,7 +3,7 @@
    get_block / register_* / remove_duplicates; `run cache_on …` folds `step` over any operation list.
    The four rounding functions of duplicate removal are arbitrary here. *)
 From Coq Require Import List Bool ZArith QArith Qcanon.
-From PV Require Import Base.AList Base.QUtil Gen.GenCache Model.EventLib Model.Seq Proofs.SeqSpec Proofs.SeqCache Proofs.SeqStored.
+From PV Require Import Base.AList Base.QUtil Gen.GenCache Model.EventLib Model.Seq Proofs.SeqSpec Proofs.SeqCache Proofs.SeqStored Proofs.SeqStoredRf Proofs.SeqStoredGrad.
 Import ListNotations.
 Open Scope Z_scope.
 
@@ -114,6 +114,65 @@ Theorem C06_add_block_stored_is_returned : forall cache_on abs_fix r1 r2 r3 r4 o
      d_adc b = Some [num; dwell; delay; freq; phoff; dead]).
 Proof. exact add_block_then_decode. Qed.
 Print Assumptions C06_add_block_stored_is_returned.
+
+(* The same for RF events handed over by value with their shapes: the decoded RF row carries the amplitude, delay,
+   frequency and phase offsets of the call, and the shapes decoded through the row's shape ids are exactly the
+   magnitude, phase and (if any) time shape of the call.  The `use` tag is not claimed (known finding
+   C06/rf-use-shared-entry: events equal except for `use` share one entry). *)
+Theorem C06_set_block_stored_rf_is_returned : forall cache_on abs_fix r1 r2 r3 r4 ops g sr sl e i evs hint b
+                                                     amp mag phase tshape delay freq phoff use sd rd,
+  Forall op_plain ops ->
+  let s := fst (run cache_on abs_fix r1 r2 r3 r4 (mkState (core_init g sr sl e) []) ops) in
+  let res := step cache_on abs_fix r1 r2 r3 r4 s (SetBlock i evs hint) in
+  snd res = ONone ->
+  decode (st_core (fst res)) i = Some b ->
+  In (MRf None None amp mag phase tshape delay freq phoff use sd rd) evs ->
+  exists id1 id2 id3 u,
+    d_rf b = Some ([amp; zq id1; zq id2; zq id3; delay; freq; phoff], u, rf_shapes mag phase tshape).
+Proof. exact set_block_then_decode_rf. Qed.
+Print Assumptions C06_set_block_stored_rf_is_returned.
+
+Theorem C06_add_block_stored_rf_is_returned : forall cache_on abs_fix r1 r2 r3 r4 ops g sr sl e evs hint b
+                                                     amp mag phase tshape delay freq phoff use sd rd,
+  Forall op_plain ops ->
+  let s := fst (run cache_on abs_fix r1 r2 r3 r4 (mkState (core_init g sr sl e) []) ops) in
+  let res := step cache_on abs_fix r1 r2 r3 r4 s (AddBlock evs hint) in
+  snd res = ONone ->
+  decode (st_core (fst res)) (next_block (st_core s)) = Some b ->
+  In (MRf None None amp mag phase tshape delay freq phoff use sd rd) evs ->
+  exists id1 id2 id3 u,
+    d_rf b = Some ([amp; zq id1; zq id2; zq id3; delay; freq; phoff], u, rf_shapes mag phase tshape).
+Proof. exact add_block_then_decode_rf. Qed.
+Print Assumptions C06_add_block_stored_rf_is_returned.
+
+(* ... and for arbitrary / extended-trapezoid gradients handed over by value with their shapes: the decoded row is
+   tagged 'g', carries the amplitude, delay, first and last of the call, and the shapes decoded through its shape ids
+   are exactly the waveform shape and (if any) time shape of the call.  (Labels and triggers: C19.) *)
+Theorem C06_set_block_stored_grad_is_returned : forall cache_on abs_fix r1 r2 r3 r4 ops g sr sl e i evs hint b
+                                                       ch amp ws tshape delay first last t0 tl,
+  Forall op_plain ops -> Forall ev_ok evs ->
+  let s := fst (run cache_on abs_fix r1 r2 r3 r4 (mkState (core_init g sr sl e) []) ops) in
+  let res := step cache_on abs_fix r1 r2 r3 r4 s (SetBlock i evs hint) in
+  snd res = ONone ->
+  decode (st_core (fst res)) i = Some b ->
+  In (MGrad ch None None amp ws tshape delay first last t0 tl) evs ->
+  exists id1 id2,
+    nth ch (d_g b) None = Some (mkDGrad tag_g [amp; zq id1; zq id2; delay; first; last] (grad_shapes ws tshape)).
+Proof. exact set_block_then_decode_grad. Qed.
+Print Assumptions C06_set_block_stored_grad_is_returned.
+
+Theorem C06_add_block_stored_grad_is_returned : forall cache_on abs_fix r1 r2 r3 r4 ops g sr sl e evs hint b
+                                                       ch amp ws tshape delay first last t0 tl,
+  Forall op_plain ops -> Forall ev_ok evs ->
+  let s := fst (run cache_on abs_fix r1 r2 r3 r4 (mkState (core_init g sr sl e) []) ops) in
+  let res := step cache_on abs_fix r1 r2 r3 r4 s (AddBlock evs hint) in
+  snd res = ONone ->
+  decode (st_core (fst res)) (next_block (st_core s)) = Some b ->
+  In (MGrad ch None None amp ws tshape delay first last t0 tl) evs ->
+  exists id1 id2,
+    nth ch (d_g b) None = Some (mkDGrad tag_g [amp; zq id1; zq id2; delay; first; last] (grad_shapes ws tshape)).
+Proof. exact add_block_then_decode_grad. Qed.
+Print Assumptions C06_add_block_stored_grad_is_returned.
 
 (* ... and it stays what get_block decodes there until index i is written again ("most recently stored"):
    no later block write to another index, block read, registration or write() changes it. *)
